@@ -70,6 +70,21 @@ def ordinal(date):
     return n + d
 
 
+def from_ordinal(n):
+    """Inverse of ordinal()."""
+    y = max(1, n // 366)
+    while ordinal((y + 1, 1, 1)) <= n:
+        y += 1
+    while ordinal((y, 1, 1)) > n:
+        y -= 1
+    rem = n - ordinal((y, 1, 1)) + 1
+    m = 1
+    while rem > days_in_month(y, m):
+        rem -= days_in_month(y, m)
+        m += 1
+    return (y, m, rem)
+
+
 def weekday(date):
     """0 = Monday."""
     return (ordinal(date) - 1) % 7
@@ -95,7 +110,7 @@ class Evaluator:
         self._resolve = {}
         self.unit = {}
         for aid, a in prog.adts.items():
-            if a.get("foreign") or not a["variants"] or any(v["fields"] for v in a["variants"]):
+            if not a["variants"] or any(v["fields"] for v in a["variants"]):
                 continue
             if len(a["variants"]) < 2:
                 continue
@@ -357,20 +372,14 @@ class Evaluator:
             return h
 
         ints = lambda args: all(isinstance(a, int) for a in args)
+        d0 = lambda args: isdate(args[0])
         if full in self.externs:
             return lambda args, fn: self.externs[full](*args)
         if name in ("Add", "Sub", "Mul") and n == 2:
             op = {"Add": lambda a, b: a + b, "Sub": lambda a, b: a - b, "Mul": lambda a, b: a * b}[name]
             return guard(ints, lambda args, fn: ("checked", op(int(args[0]), int(args[1]))))
-        if name in ("add", "sub", "mul") and n == 2 and re.search(r"(^|::)(add|sub|mul)$", full):
-            # operator traits on integers (`a - &b`)
-            def arith(args, fn):
-                a, b = int(args[0]), int(args[1])
-                r = a + b if name == "add" else a - b if name == "sub" else a * b
-                if r < 0:
-                    raise Unmodelled("%s: %s(%d, %d) is negative (an overflow trap on unsigned values)" % (fn.id, name, a, b))
-                return r
-            return guard(lambda a: ints(a) and not any(isinstance(x, bool) for x in a), arith)
+        if name == "mul" and n == 2 and re.search(r"(^|::)mul$", full):
+            return guard(lambda a: ints(a) and not any(isinstance(x, bool) for x in a), lambda args, fn: int(args[0]) * int(args[1]))
         if name in ("Div", "Rem") and n == 2:
             def divrem(args, fn):
                 a, b = int(args[0]), int(args[1])
@@ -440,6 +449,46 @@ class Evaluator:
                     raise Unmodelled("%s: %s to %r" % (fn.id, name, args[1]))
                 return ("some", int(args[0])) if r[0] <= args[0] <= r[1] else None
             return conv
+        # chrono durations in whole days and date arithmetic
+        isdays = lambda v: isinstance(v, tuple) and len(v) == 2 and v[0] == "days"
+        if full.endswith("TimeDelta::days") and n == 1:
+            return guard(ints, lambda args, fn: ("days", int(args[0])))
+        if full.endswith("TimeDelta::num_days") and n == 1:
+            return guard(lambda a: isdays(a[0]), lambda args, fn: args[0][1])
+        if name in ("sub", "add") and n == 2 and re.search(r"(^|::)(add|sub)$", full):
+            def date_arith(args, fn):
+                a, b = args
+                if isdate(a) and isdays(b):
+                    o = ordinal(a) + (b[1] if name == "add" else -b[1])
+                    if o < 1:
+                        raise Unmodelled("%s: date before year 1" % fn.id)
+                    return from_ordinal(o)
+                if isdate(a) and isdate(b) and name == "sub":
+                    return ("days", ordinal(a) - ordinal(b))
+                if isinstance(a, int) and isinstance(b, int) and not isinstance(a, bool) and not isinstance(b, bool):
+                    r = a + b if name == "add" else a - b
+                    if r < 0:
+                        raise Unmodelled("%s: %s(%d, %d) is negative (an overflow trap on unsigned values)" % (fn.id, name, a, b))
+                    return r
+                raise Unmodelled("%s: %s on %r, %r" % (fn.id, name, a, b))
+            return date_arith
+        if full.endswith("Months::new") and n == 1:
+            return guard(ints, lambda args, fn: ("months", int(args[0])))
+        if full.endswith("NaiveDate::checked_add_months") and n == 2:
+            def add_months(args, fn):
+                (y, m, d), k = args[0], args[1][1]
+                t = (y * 12 + (m - 1)) + k
+                y2, m2 = t // 12, t % 12 + 1
+                if y2 > MAX_YEAR:
+                    return None
+                return ("some", (y2, m2, min(d, days_in_month(y2, m2))))
+            return guard(lambda a: isdate(a[0]) and isinstance(a[1], tuple) and a[1][0] == "months", add_months)
+        if name == "with_day" and n == 2:
+            return guard(lambda a: isdate(a[0]) and isinstance(a[1], int), lambda args, fn: ymd_opt(args[0][0], args[0][1], args[1]))
+        if name == "weekday" and n == 1:
+            return guard(d0, lambda args, fn: weekday(args[0]))
+        if name == "index" and n == 2:
+            return guard(lambda a: isinstance(a[0], list) and isinstance(a[1], int) and 0 <= a[1] < len(a[0]), lambda args, fn: args[0][args[1]])
         if name == "array":
             return lambda args, fn: list(args)
         if name == "tuple":
@@ -525,7 +574,15 @@ class Evaluator:
         callee = self.resolve(full, n)
         if callee is not None:
             return lambda args, fn: self.run(callee, args)
-        return unmodelled
+
+        def by_site(args, fn):
+            # the short name is ambiguous program-wide: use the callee resolved at this function's call sites
+            ids = flow._CALLEES.get((fn.id, full, n), set())
+            cands = [self.prog.fns[i] for i in ids if i in self.prog.fns and self.prog.fns[i].crate in lib.WS_LIBS]
+            if len(ids) == 1 and len(cands) == 1:
+                return self.run(cands[0], args)
+            return unmodelled(args, fn)
+        return by_site
 
     def apply(self, clo, args, fn):
         """Call a closure value ("closure", def id, captures) of /repo."""
